@@ -9,8 +9,11 @@ from harness import common, tlc
 
 
 def registry():
-    from harness.props import reqwait, errorclass, session, dispatch, handshake, versioning, framing, framing_out, lifecycle, host, http, sse, codec
+    from harness.props import reqwait, errorclass, session, dispatch, handshake, versioning, framing, framing_out, lifecycle, host, http, sse, codec, models
     return {
+        "C02": models.check_c02,
+        "C09": models.check_c09,
+        "C10": models.check_c10,
         "C17": codec.check_c17,
         "C12": sse.check_c12,
         "C11": http.check_c11,
